@@ -258,10 +258,13 @@ ApplyOp(st, s) ==
 
 \* ------------------------------------------------------------------ leaves
 \* s = [k |-> "leaf", h, sh, v (Seq of Rat), const]
+\* integer and boolean tensors are constant whatever was asked for (C10)
+LeafConst(s) == s.const \/ Kw(s, "dt", "f8") \in {"i8", "b1"}
 ApplyLeaf(st, s) ==
-  LET st1 == NewBuf(st, [i \in 1..Len(s.v) |-> DC(s.v[i])], s.const)
-      st2 == NewNodeB(st1, <<>>, s.const, FALSE, Len(st1.mem))
-  IN PutH(st2, s.h, MkH("t", Len(st1.mem), Iota(Len(s.v)), s.sh, s.const, Len(st2.N), 0, 0))
+  LET c == LeafConst(s)
+      st1 == NewBuf(st, [i \in 1..Len(s.v) |-> DC(s.v[i])], c)
+      st2 == NewNodeB(st1, <<>>, c, FALSE, Len(st1.mem))
+  IN PutH(st2, s.h, MkH("t", Len(st1.mem), Iota(Len(s.v)), s.sh, c, Len(st2.N), 0, 0))
 
 \* ------------------------------------------------------------------ in-place updates
 \* The view family of root r: r and every registered (live) view descendant.
@@ -433,11 +436,40 @@ ApplyBackward(st, s) ==
                         !.ngen = @ + Len(st.H) + 1]
   IN ClearNodes(st1, UpAll(st, lr.node))
 
+\* ------------------------------------------------------------------ projection (what a user can observe)
+\* gradient read through the public `.grad` property
+ObsGrad(st, h) ==
+  LET r == st.H[h] IN
+  IF r.const THEN None
+  ELSE IF r.base = 0 THEN (IF IsNone(st.g[h]) THEN None ELSE Some([k \in 1..Len(r.imap) |-> st.g[h].v[r.imap[k]]]))
+  ELSE LET bg == st.g[r.base] IN
+       IF IsNone(bg) THEN None
+       ELSE IF HasCr(st, h) \/ (r.gc # 0 /\ r.gc = st.gen[r.base])
+            THEN Some([k \in 1..Len(r.imap) |-> bg.v[r.imap[k]]])      \* owner's gradient is stored per buffer cell
+            ELSE None
+ObsBase(st, h) == LET b == st.H[h].base IN IF b # 0 /\ ~st.H[b].live THEN -1 ELSE b
 \* ------------------------------------------------------------------ other statements
 ApplyClear(st, s) == ClearNodes(st, UpAll(st, st.H[s.h].node))
 ApplyNullGrad(st, s) == IF st.H[s.h].base = 0 THEN [st EXCEPT !.g[s.h] = None]
                         ELSE [st EXCEPT !.H[s.h].gc = 0]
 ApplyDrop(st, s) == [st EXCEPT !.H[s.h].live = FALSE]
+\* t.copy(): fresh memory, no graph, same constant flag, and a COPY of the source's gradient (C17)
+ApplyCopy(st, s) ==
+  LET a == s.a[1].h src == st.H[a]
+      st1 == NewBuf(st, [k \in 1..Len(src.imap) |-> DC(Vals(st, a)[k])], src.const)
+      st2 == NewNodeB(st1, <<>>, src.const, FALSE, Len(st1.mem))
+      st3 == PutH(st2, s.h, MkH("t", Len(st1.mem), Iota(Len(src.imap)), src.sh, src.const, Len(st2.N), 0, 0))
+      \* Tensor.copy copies the tensor's OWN gradient slot: a view's own slot is empty
+      og == IF src.base = 0 /\ ~src.const THEN st.g[a] ELSE None
+  IN IF IsNone(og) THEN st3
+     ELSE [st3 EXCEPT !.g[s.h] = Some([k \in 1..Len(src.imap) |-> og.v[src.imap[k]]]), !.gen[s.h] = st.ngen + 1, !.ngen = @ + 2]
+\* the user edits a gradient array in place:  h.grad[ix] = c   (C12: aliasing of gradients)
+ApplyEditGrad(st, s) ==
+  LET r == Root(st, s.h) hr == st.H[s.h]
+      ig == IndexGather(s.ix, hr.sh)
+      cells == {hr.imap[ig[k]] : k \in 1..Len(ig)}
+  IN IF IsNone(ObsGrad(st, s.h)) THEN st
+     ELSE [st EXCEPT !.g[r] = Some([c \in 1..Len(@.v) |-> IF c \in cells THEN s.c ELSE @.v[c]])]
 \* scopes: only no_autodiff changes what the reference observes (the memory guard is MemGuard.tla's subject)
 ApplyEnter(st, s) == IF s.m = "no_autodiff" THEN [st EXCEPT !.tsaved = Append(@, st.track), !.track = FALSE] ELSE st
 ApplyExit(st, s)  == IF s.m = "no_autodiff" THEN [st EXCEPT !.track = st.tsaved[Len(st.tsaved)], !.tsaved = SubSeq(@, 1, Len(@) - 1)]
@@ -459,19 +491,9 @@ Apply(st0, s) ==
     [] s.k = "clear"    -> ApplyClear(st, s)
     [] s.k = "nullgrad" -> ApplyNullGrad(st, s)
     [] s.k = "drop"     -> ApplyDrop(st, s)
+    [] s.k = "copy"     -> ApplyCopy(st, s)
+    [] s.k = "editgrad" -> ApplyEditGrad(st, s)
     [] s.k = "enter"    -> ApplyEnter(st, s)
     [] s.k = "exit"     -> ApplyExit(st, s)
 
-\* ------------------------------------------------------------------ projection (what a user can observe)
-\* gradient read through the public `.grad` property
-ObsGrad(st, h) ==
-  LET r == st.H[h] IN
-  IF r.const THEN None
-  ELSE IF r.base = 0 THEN (IF IsNone(st.g[h]) THEN None ELSE Some([k \in 1..Len(r.imap) |-> st.g[h].v[r.imap[k]]]))
-  ELSE LET bg == st.g[r.base] IN
-       IF IsNone(bg) THEN None
-       ELSE IF HasCr(st, h) \/ (r.gc # 0 /\ r.gc = st.gen[r.base])
-            THEN Some([k \in 1..Len(r.imap) |-> bg.v[r.imap[k]]])      \* owner's gradient is stored per buffer cell
-            ELSE None
-ObsBase(st, h) == LET b == st.H[h].base IN IF b # 0 /\ ~st.H[b].live THEN -1 ELSE b
 =============================================================================
